@@ -4,7 +4,7 @@ from trees import *
 
 RULE = ("seeded random nested formulas over boolean leaves from All/Any/AtLeast(k, implicit and explicit sign)/AtMost/Xor/"
         "ExactlyOne/XNor/Imply/Not (depth<=3 quick / <=4 thorough; thorough adds every formula with <=2 connectives over "
-        "2 leaves); each is built by the direct constructors, by plog.from_json from its JSON form, and (rule-shaped ones) by "
+        "2 leaves); each is built by the direct constructors, by the from_list constructors (All/Any/Xor/ExactlyOne/XNor), by plog.from_json from its JSON form, and (rule-shaped ones) by "
         "Imply.from_cicJE (default component mapping, cmp2prop returning id strings / variables, ids under another key via id_ident); "
         "AtLeast/AtMost receive their propositions as list / tuple / generator / iterator / map; built trees compared structurally with the model's `build`; oracle: full truth table (<=6 leaves) "
         "against an independent truth function; non-trivial = at least one nested connective")
@@ -105,6 +105,17 @@ def do_case(ctx, inp):
         if got != want:
             ctx.fail("truth-table-row-wrong", {"sigma": s, "evaluate": None if got is None else int(got), "truth_function": want})
             break
+    if a["c"] in ("All", "Any", "Xor", "ExactlyOne", "XNor"):
+        # the list constructors of the same classes
+        o3 = getattr(pg, a["c"]).from_list([build(x) for x in a["args"]], variable=a.get("id"))
+        ctx.tags["via-from_list"] += 1
+        ctx.op({"op": "build", "ast": a}, {"t": snap(o3)}, label="build-from_list")
+        for s in table:
+            want = truth(a, s)
+            got = o3.evaluate(s).constant
+            if got != want:
+                ctx.fail("from_list-truth-table-row-wrong", {"sigma": s, "evaluate": None if got is None else int(got), "truth_function": want})
+                break
     if not has_explicit_sign(a):
         j = json.loads(json.dumps(to_json(a)))
         oj = pg.from_json(j)
